@@ -556,15 +556,18 @@ def generate(unit_name):
             else: blocks, nxt = parse_extract_blocks(lines, i)
             kind, path, name = rest[0], rest[1], rest[2]
             item = find_item(path, kind, name, opts.get('impl'))
+            assumed = kind == 'fn' and opts.get('assume') == '1'
             if kind == 'fn':
-                txt = extract_fn(item, opts, blocks, u.rewrites)
+                txt = extract_fn(item, opts, blocks, u.rewrites, as_stub=assumed)
             else:
                 txt = extract_plain(item, opts, u.rewrites)
             check_erasure(item, txt)
+            if assumed:
+                txt = '#[verifier::external_body] /*@A ASSUMED contract: body not verified*/\n' + txt
             sha = hashlib.sha256(' '.join(code_texts(item.text)).encode()).hexdigest()
             u.functions.append({'name': opts.get('rename', name), 'orig_name': name, 'kind': kind, 'path': path, 'impl': opts.get('impl'),
                                 'line': item.line, 'sha256': sha, 'mode': opts.get('mode', 'absent') if kind == 'fn' else None,
-                                'stub': False, 'seg': len(u.segments), 'spec': (f, n),
+                                'stub': bool(assumed), 'assumed': bool(assumed), 'seg': len(u.segments), 'spec': (f, n),
                                 'clauses': count_clauses(blocks)})
             u.emit('/*@X %s::%s L%d*/\n' % (path, name, item.line), ('spec', f, n))
             u.emit(txt + '\n', ('src', path, item.line, f, n))
